@@ -28,6 +28,8 @@ def plan(tier):
 
 
 NUMS = ['1', '2', '3', '10', '9', '100', '-4', '0', '25', '7']
+# numeric strings that Python (int() / float()) and JavaScript (Number()) convert to the same number
+NUMS_DEC = ['1.5', '2e3', '5e-1', '1.5e2', '+5', '.5', '-0.25', '3.0', ' 7', '7 ', '1E2', '-.5', '10', '9', '0', '1e-05', '+2.5', '4.']
 KEYS = ['a', 'a b', 'a!', 'b', 'B', '', 'ab']
 
 
@@ -35,7 +37,8 @@ KEYS = ['a', 'a b', 'a!', 'b', 'B', '', 'ab']
 def st_agg_case(draw):
     n = draw(st.integers(0, 10))
     col1 = [draw(st.sampled_from(KEYS[:draw(st.integers(2, len(KEYS)))])) for _ in range(n)]
-    col2 = [draw(st.sampled_from(NUMS)) for _ in range(n)]
+    dec = draw(st.integers(0, 2)) == 0
+    col2 = [draw(st.sampled_from(NUMS_DEC if (dec and draw(st.integers(0, 2)) != 0) else NUMS)) for _ in range(n)]
     col3 = [draw(st.sampled_from(['9', '10', '100', '2'])) for _ in range(n)]
     A = [list(r) for r in zip(col1, col2, col3)]
     hdr = draw(st.booleans())
@@ -72,8 +75,9 @@ def st_agg_case(draw):
                 it = {'k': 'agg', 'fn': fn, 'sp': sp, 'e': fld(draw(st.integers(0, 2)))}
             else:
                 form = draw(st.integers(0, 3))
-                f = fld(draw(st.sampled_from([1, 2])))
-                if form == 0:
+                ci = draw(st.sampled_from([1, 2]))
+                f = fld(ci)
+                if form == 0 and not (dec and ci == 1):
                     arg = qgen.mk('int(%s) * 2' % f['py'], 'parseInt(%s) * 2' % f['js'], 'int')
                 elif form == 1:
                     arg = qgen.mk('NR', 'NR', 'int')
